@@ -8,6 +8,79 @@ use std::io::{BufRead, Write};
 pub mod lin;
 pub mod proc;
 
+/// A page shared between a worker and its forked run: the run leaves a short note about what it is doing
+/// (and a SIGSEGV reporter the faulting address); if the run dies without a result, the note becomes part
+/// of the `process-crash` message.
+pub mod crashnote {
+    use std::sync::atomic::{AtomicUsize, Ordering};
+    static PAGE: AtomicUsize = AtomicUsize::new(0);
+    const NOTE_LEN: usize = 1000;
+    pub fn init() {
+        if PAGE.load(Ordering::Relaxed) == 0 {
+            let p = unsafe { libc::mmap(core::ptr::null_mut(), 4096, libc::PROT_READ | libc::PROT_WRITE, libc::MAP_SHARED | libc::MAP_ANONYMOUS, -1, 0) };
+            if p != libc::MAP_FAILED {
+                PAGE.store(p as usize, Ordering::Relaxed);
+            }
+        }
+        clear();
+    }
+    pub fn clear() {
+        let p = PAGE.load(Ordering::Relaxed);
+        if p != 0 {
+            unsafe { core::ptr::write_bytes(p as *mut u8, 0, 4096) };
+        }
+    }
+    pub fn set(s: &str) {
+        let p = PAGE.load(Ordering::Relaxed);
+        if p != 0 {
+            let n = s.len().min(NOTE_LEN);
+            unsafe {
+                core::ptr::copy_nonoverlapping(s.as_ptr(), p as *mut u8, n);
+                *(p as *mut u8).add(n) = 0;
+            }
+        }
+    }
+    pub fn get() -> String {
+        let p = PAGE.load(Ordering::Relaxed);
+        if p == 0 {
+            return String::new();
+        }
+        let bytes = unsafe { core::slice::from_raw_parts(p as *const u8, NOTE_LEN) };
+        let n = bytes.iter().position(|b| *b == 0).unwrap_or(NOTE_LEN);
+        let mut s = String::from_utf8_lossy(&bytes[..n]).to_string();
+        let addr = unsafe { *((p + 2048) as *const usize) };
+        let has = unsafe { *((p + 2056) as *const usize) };
+        if has != 0 {
+            s.push_str(&format!(" [fault address {addr:#x}]"));
+        }
+        s
+    }
+    extern "C" fn on_segv(_sig: i32, info: *mut libc::siginfo_t, _ctx: *mut libc::c_void) {
+        let p = PAGE.load(Ordering::Relaxed);
+        if p != 0 {
+            unsafe {
+                *((p + 2048) as *mut usize) = (*info).si_addr() as usize;
+                *((p + 2056) as *mut usize) = 1;
+            }
+        }
+        unsafe {
+            libc::signal(libc::SIGSEGV, libc::SIG_DFL);
+            libc::signal(libc::SIGBUS, libc::SIG_DFL);
+        }
+        // returning re-executes the faulting instruction with the default disposition: the process dies
+    }
+    /// called inside the forked run
+    pub fn install_segv_reporter() {
+        unsafe {
+            let mut sa: libc::sigaction = core::mem::zeroed();
+            sa.sa_sigaction = on_segv as usize;
+            sa.sa_flags = libc::SA_SIGINFO;
+            libc::sigaction(libc::SIGSEGV, &sa, core::ptr::null_mut());
+            libc::sigaction(libc::SIGBUS, &sa, core::ptr::null_mut());
+        }
+    }
+}
+
 // ---------------------------------------------------------------------------------------
 // Address stability: the simulator identifies memory locations by address. If the heap handed a freed
 // block to a new object during a run, whether two objects share an identity would depend on the heap's
@@ -297,6 +370,7 @@ pub fn execute(h: &dyn Harness, plan: &Plan, cfg: &CfgSer, dec: Decisions) -> Ru
             w.push(h.name().to_string());
         }
     }
+    crashnote::init();
     let mut fds = [0i32; 2];
     if unsafe { libc::pipe(fds.as_mut_ptr()) } != 0 {
         return crashed_result("pipe() failed".into());
@@ -336,7 +410,11 @@ pub fn execute(h: &dyn Harness, plan: &Plan, cfg: &CfgSer, dec: Decisions) -> Ru
     match serde_json::from_slice::<RunOut>(&buf) {
         Ok(o) => from_out(o),
         Err(_) => {
-            let what = if libc::WIFSIGNALED(status) { format!("the process running the scenario was killed by signal {}", libc::WTERMSIG(status)) } else { format!("the process running the scenario exited with status {} without a result", libc::WEXITSTATUS(status)) };
+            let mut what = if libc::WIFSIGNALED(status) { format!("the process running the scenario was killed by signal {}", libc::WTERMSIG(status)) } else { format!("the process running the scenario exited with status {} without a result", libc::WEXITSTATUS(status)) };
+            let note = crashnote::get();
+            if !note.is_empty() {
+                what.push_str(&format!(" while: {note}"));
+            }
             crashed_result(what)
         }
     }
